@@ -432,13 +432,136 @@ Section Norm.
   Lemma flatten_scalar_some : forall f subs r, flatten f false g RScalar (Some subs) = Some r -> False.
   Proof. intros [|f] subs r H; discriminate. Qed.
 
+  (** the plain object: both sides look the (first) selection of an alias up by that alias, and use its name only *)
+  Definition leaf_entry (val : Z) (tag : string) (n : node) : list (string * json) :=
+    match n with
+    | NField al nm _ _ _ _ _ =>
+        if String.eqb nm "val" then [(al, JNum val)]
+        else if String.eqb nm "tag" then [(al, JStr tag)]
+        else if String.eqb nm "__typename" then [(al, JStr "Leaf")]
+        else []
+    | _ => []
+    end.
+
+  Lemma leaf_obj_eq : forall val tag sels, leaf_obj val tag sels = JObj (flat_map (leaf_entry val tag) sels).
+  Proof. intros. unfold leaf_obj. rewrite flat_map_concat_map. reflexivity. Qed.
+
+  Lemma leaf_entry_fst : forall val tag n kv, In kv (leaf_entry val tag n) -> fst kv = n_alias n.
+  Proof.
+    intros val tag n kv H. destruct n as [al nm ? ? ? ? ?|]; [|contradiction]. simpl in H.
+    destruct (String.eqb nm "val"); [destruct H as [<-|[]]; reflexivity|].
+    destruct (String.eqb nm "tag"); [destruct H as [<-|[]]; reflexivity|].
+    destruct (String.eqb nm "__typename"); [destruct H as [<-|[]]; reflexivity | contradiction].
+  Qed.
+
+  (** with distinct aliases, the entry of alias [k] is the entry of the selection that carries [k] *)
+  Lemma leaf_lookup : forall val tag sels k, NoDup (map n_alias sels) ->
+    lookup k (flat_map (leaf_entry val tag) sels) =
+    match find (fun n => String.eqb (n_alias n) k) sels with
+    | Some n => lookup k (leaf_entry val tag n)
+    | None => None
+    end.
+  Proof.
+    intros val tag sels k. induction sels as [|x t IH]; intros Hnd; [reflexivity|].
+    simpl in Hnd. inversion Hnd as [|? ? Hx Hnd']; subst. cbn [flat_map find]. rewrite lookup_app.
+    destruct (String.eqb (n_alias x) k) eqn:E.
+    - apply String.eqb_eq in E. subst k. destruct (lookup (n_alias x) (leaf_entry val tag x)) eqn:El; [reflexivity|].
+      apply lookup_none_notin. intros Hin. apply in_map_iff in Hin as [kv [Hk Hin]]. apply in_flat_map in Hin as [n [Hn Hin]].
+      apply leaf_entry_fst in Hin. apply Hx. rewrite <- Hk, Hin. apply in_map; exact Hn.
+    - assert (Hn : lookup k (leaf_entry val tag x) = None).
+      { apply lookup_none_notin. intros Hin. apply in_map_iff in Hin as [kv [Hk Hin]]. apply leaf_entry_fst in Hin.
+        rewrite Hk in Hin. rewrite Hin, String.eqb_refl in E. discriminate. }
+      rewrite Hn. apply IH; exact Hnd'.
+  Qed.
+
+  Lemma find_alias_spec : forall sels k n, NoDup (map n_alias sels) -> In n sels -> n_alias n = k ->
+    find (fun n => String.eqb (n_alias n) k) sels = Some n.
+  Proof.
+    induction sels as [|x t IH]; intros k n Hnd Hin Hk; [contradiction|]. simpl in Hnd. inversion Hnd as [|? ? Hx Hnd']; subst.
+    cbn [find]. destruct Hin as [->|Hin]; [rewrite String.eqb_refl; reflexivity|].
+    destruct (String.eqb (n_alias x) (n_alias n)) eqn:E; [|apply IH; auto].
+    apply String.eqb_eq in E. exfalso. apply Hx. rewrite E. apply in_map; exact Hin.
+  Qed.
+
+  Lemma find_alias_none : forall sels k, ~ In k (map n_alias sels) -> find (fun n => String.eqb (n_alias n) k) sels = None.
+  Proof.
+    induction sels as [|x t IH]; intros k H; [reflexivity|]. cbn [find]. destruct (String.eqb (n_alias x) k) eqn:E.
+    - apply String.eqb_eq in E. exfalso. apply H. left; exact E.
+    - apply IH. intros Hin. apply H. right; exact Hin.
+  Qed.
+
+  Lemma leaf_norm : forall f subs s' val tag,
+    flatten (S f) false g (RObj "Leaf") (Some subs) = Some (Some s') -> Forall qwfP subs ->
+    nodup_str (map n_alias s') = true ->
+    jeq (leaf_obj val tag (map annot s'))
+        (leaf_obj val tag (map (fun e => fst (snd e)) (group_alias (collect_all g "Leaf" subs)))).
+  Proof.
+    intros f subs s' val tag Hfl Hq Hnd0.
+    destruct (flatten_obj_inv f g "Leaf" subs s' Hfl) as [flat0 [merged [E0 [E1 F2]]]].
+    pose proof (flatten_frags_fwf _ _ _ _ Hq E0) as Hfw.
+    rewrite (fwf_collect _ _ _ _ E0).
+    assert (Hnd : NoDup (map n_alias s')) by (apply nodup_str_NoDup; exact Hnd0).
+    assert (Hal : map n_alias merged = map n_alias s').
+    { clear -F2. induction F2 as [|c n' merged flat Hc _ IH]; [reflexivity|]. simpl. rewrite IH. f_equal.
+      destruct c as [al nm args ak dirs hs ss|]; [|contradiction]. destruct Hc as [t [_ [[x [_ ->]]|[_ ->]]]]; reflexivity. }
+    assert (Hndm : NoDup (map n_alias merged)) by (rewrite Hal; exact Hnd).
+    assert (Hhs : Forall hs_ok flat0).
+    { eapply Forall_impl; [|exact Hfw]. intros n [Hn _]. apply qwf_hs_ok; exact Hn. }
+    set (G := group_alias flat0).
+    set (firsts := map (fun e : string * (node * list node) => fst (snd e)) G).
+    assert (HGal : map n_alias firsts = map fst G).
+    { unfold firsts. rewrite map_map. apply map_ext_in. intros [al [n ss]] Hin. simpl.
+      pose proof (in_lookup G al (n, ss) (group_alias_nodup flat0) Hin) as Hl. unfold G in Hl. rewrite group_spec in Hl.
+      destruct (head_of al flat0) as [first|] eqn:Eh; [|discriminate]. simpl in Hl. inversion Hl; subst.
+      apply (head_of_in _ _ _ Eh). }
+    assert (Hndf : NoDup (map n_alias firsts)) by (rewrite HGal; apply group_alias_nodup).
+    rewrite !leaf_obj_eq. constructor. intros k.
+    rewrite (leaf_lookup val tag (map annot s') k) by (rewrite map_annot_aliases; exact Hnd).
+    rewrite (leaf_lookup val tag firsts k Hndf).
+    destruct (head_of k flat0) as [first|] eqn:Eh.
+    - destruct (head_of_in _ _ _ Eh) as [Hfin Hfa].
+      assert (Hinm : In k (map n_alias merged)).
+      { apply (merged_aliases _ _ k E1). rewrite <- Hfa. apply in_map; exact Hfin. }
+      apply in_map_iff in Hinm as [c [Hca Hc]].
+      destruct (merged_node _ _ c Hhs E1 Hndm Hc) as [first' [Hf1 [Hstrip _]]].
+      rewrite Hca, Eh in Hf1. inversion Hf1; subst first'. clear Hf1.
+      assert (Hch : exists n', In n' s' /\ child_of f g "Leaf" c n').
+      { clear -F2 Hc. induction F2 as [|c0 n0 merged flat H0 _ IH]; [contradiction|]. destruct Hc as [->|Hc].
+        - exists n0. split; [left; reflexivity | exact H0].
+        - destruct (IH Hc) as [n' [A B]]. exists n'. split; [right; exact A | exact B]. }
+      destruct Hch as [n' [Hn' Hchild]].
+      assert (HinG : In (k, (first, subs_of k flat0)) G).
+      { apply lookup_in. unfold G. rewrite group_spec, Eh. reflexivity. }
+      assert (Hff : In first firsts).
+      { unfold firsts. apply in_map_iff. exists (k, (first, subs_of k flat0)). split; [reflexivity | exact HinG]. }
+      rewrite (find_alias_spec firsts k first Hndf Hff Hfa).
+      destruct c as [alc nmc argsc akc dirsc hsc subsc|]; [|contradiction].
+      destruct first as [al0 nm0 args0 ak0 dirs0 hs0 subs0|]; [|rewrite Forall_forall in Hfw; destruct (Hfw _ Hfin) as [_ Hx]; discriminate].
+      unfold strip in Hstrip. simpl in Hstrip. inversion Hstrip; subst alc nmc argsc akc dirsc hsc.
+      simpl in Hfa. subst al0.
+      assert (Hn'eq : exists hs2 ss2, n' = NField k nm0 args0 ak0 dirs0 hs2 ss2).
+      { destruct Hchild as [t [_ [[x [_ ->]]|[_ ->]]]]; eauto. }
+      destruct Hn'eq as [hs2 [ss2 ->]].
+      rewrite (find_alias_spec (map annot s') k (annot (NField k nm0 args0 ak0 dirs0 hs2 ss2))).
+      + simpl. destruct (lookup k _); constructor. apply jeq_refl.
+      + rewrite map_annot_aliases; exact Hnd.
+      + apply in_map; exact Hn'.
+      + reflexivity.
+    - assert (Hnin : ~ In k (map n_alias s')).
+      { rewrite <- Hal. intros Hin. apply (merged_aliases _ _ k E1) in Hin. apply (head_of_none _ _ Eh Hin). }
+      rewrite find_alias_none by (rewrite map_annot_aliases; exact Hnin).
+      rewrite find_alias_none; [constructor|].
+      rewrite HGal. intros Hin. apply in_map_iff in Hin as [[al [n ss]] [Hk Hin]]. simpl in Hk. subst al.
+      pose proof (in_lookup G k (n, ss) (group_alias_nodup flat0) Hin) as Hl. unfold G in Hl. rewrite group_spec, Eh in Hl. discriminate.
+  Qed.
+
   Lemma VN_from : forall f, N_stmt f -> (forall f', f = S f' -> N_stmt f') -> VN f.
   Proof.
     intros f HN HN' rt subs s' Hfl Hq Hsub v. induction v using aval_ind'; intros Hv.
     - exists JNull. split; [reflexivity | constructor].
     - exfalso. destruct rt; simpl in Hv; try contradiction. apply (flatten_scalar_some _ _ _ Hfl).
     - (* an object *)
-      destruct rt as [|o|u]; simpl in Hv; try contradiction; [exfalso; apply (flatten_scalar_some _ _ _ Hfl)|]. subst t.
+      destruct rt as [|o|u]; simpl in Hv; try contradiction; [exfalso; apply (flatten_scalar_some _ _ _ Hfl)|]. destruct Hv as [-> _].
       destruct Hsub as [Hnd [Hok' _]].
       assert (Hflat : flat_ok g o s' = true) by (unfold flat_ok; rewrite Hnd, Hok'; reflexivity).
       destruct (HN o i subs s' Hfl Hq Hflat) as [r [Hr Hj]].
@@ -507,7 +630,12 @@ Section Norm.
         destruct (IH H3 H5) as [ys [A B]]. destruct (H2 H4) as [y [Hy Hs]].
         exists (y :: ys). split; [simpl; rewrite Hy, A; reflexivity | constructor; auto]. }
       destruct Hex as [ys [A B]]. cbn [render_gen rrender]. rewrite A. exists (JArr ys). split; [reflexivity | constructor; exact B].
-    - exfalso. destruct rt; simpl in Hv; try contradiction. apply (flatten_scalar_some _ _ _ Hfl).
+    - (* the plain object *)
+      destruct rt as [|o|u]; simpl in Hv; try contradiction; [exfalso; apply (flatten_scalar_some _ _ _ Hfl)|]. subst o.
+      destruct Hsub as [Hnd [Hok' _]]. cbn [rrender render_gen]. eexists. split; [reflexivity|].
+      unfold asubs. rewrite (has_frag_fields _ (all_fields_ok g _ _ Hok')).
+      destruct f as [|f']; [discriminate|].
+      apply (leaf_norm f' subs s' v t Hfl Hq Hnd).
   Qed.
 
   Lemma rfield_fst : forall f ty id e y, rfield w g true f ty id e = Some y -> fst y = fst e.
